@@ -149,6 +149,47 @@ def _ground_selects(fs):
     return out
 
 
+_GA_CACHE = {}
+
+
+def _ground_apps_one(f):
+    """applications of opaque specification functions (SPEC_*) over ground arguments"""
+    hit = _GA_CACHE.get(f.get_id())
+    if hit is not None and hit[0].eq(f):
+        return hit[1]
+    out = []
+    seen, stack = set(), [f]
+    while stack:
+        x = stack.pop()
+        if x.get_id() in seen:
+            continue
+        seen.add(x.get_id())
+        if z3.is_quantifier(x):
+            continue
+        if z3.is_app(x):
+            d = x.decl()
+            if d.kind() == z3.Z3_OP_UNINTERPRETED and d.arity() > 0 and d.name().startswith("SPEC_"):
+                out.append((d.name(), x.get_id(), x))
+            stack.extend(x.children())
+    _GA_CACHE[f.get_id()] = (f, out)
+    return out
+
+
+def _def_pattern(q):
+    """(function name, [de Bruijn index of each argument]) when q is  forall vs. F(vs) == body  with the pattern F(vs)"""
+    if q.num_patterns() != 1:
+        return None
+    p = q.pattern(0)
+    if p.num_args() != 1:
+        return None
+    app = p.arg(0)
+    if not (z3.is_app(app) and app.decl().kind() == z3.Z3_OP_UNINTERPRETED and app.decl().name().startswith("SPEC_")):
+        return None
+    if not all(z3.is_var(a) for a in app.children()):
+        return None
+    return app.decl().name(), [z3.get_var_index(a) for a in app.children()]
+
+
 def _quant_reads(q):
     """array reads in the body of a quantified hypothesis (memoised)"""
     hit = _QR_CACHE.get(q.get_id())
@@ -233,7 +274,7 @@ def pre_instantiate(hyps, goal, rounds=2, cap=160, parts=False):
         flat.extend(h.children() if z3.is_and(h) else [h])
     hyps = flat
     ground_all = [h for h in hyps if not z3.is_quantifier(h)]
-    quants = [h for h in hyps if z3.is_quantifier(h) and h.is_forall() and h.num_vars() <= 2]
+    quants = [h for h in hyps if z3.is_quantifier(h) and h.is_forall() and (h.num_vars() <= 2 or _def_pattern(h) is not None)]
     # goal-directed seed: the goal and the ground facts connected to it through rare symbols (definitions of the constants it
     # mentions, ...); instances for these come first, the undirected ones fill what is left of the budget
     syms = [symbols(h) for h in ground_all]
@@ -253,6 +294,7 @@ def pre_instantiate(hyps, goal, rounds=2, cap=160, parts=False):
             S |= syms[i] - common
     directed = [ground_all[i] for i in sorted(keep)] + [g0]
     seen_inst = set()
+    _ALL_GROUND[0] = ground_all
     first = _instantiate(quants, directed, rounds + 1, cap, seen_inst)
     rest = _instantiate(quants, ground_all + [g0] + first, rounds, max(0, cap - len(first)), seen_inst) if len(first) < cap else []
     if parts:
@@ -265,15 +307,60 @@ def pre_instantiate(hyps, goal, rounds=2, cap=160, parts=False):
     return first + rest
 
 
+_ALL_GROUND = [None]
+
+
+def _const_classes(ground):
+    """equalities  c == d  between integer constants among the ground facts (e.g. a callee's field equal to a parameter):
+    multipliers are matched modulo these"""
+    parent = {}
+
+    def find(x):
+        while parent.get(x, x) != x:
+            x = parent[x]
+        return x
+    for h in ground:
+        if z3.is_eq(h) and all(z3.is_const(a) and a.decl().kind() == z3.Z3_OP_UNINTERPRETED and z3.is_int(a) for a in h.children()):
+            a, b = (find(c.decl().name()) for c in h.children())
+            if a != b:
+                parent[a] = b
+    return find
+
+
 def _instantiate(quants, ground, rounds, cap, seen_inst):
     inst, pairwise = [], []
     if cap <= 0:
         return []
+    find = _const_classes(_ALL_GROUND[0] if _ALL_GROUND[0] is not None else ground)
+
+    def same_const(a, b):
+        if a.eq(b):
+            return True
+        return (z3.is_const(a) and z3.is_const(b) and a.decl().kind() == z3.Z3_OP_UNINTERPRETED and b.decl().kind() == z3.Z3_OP_UNINTERPRETED
+                and find(a.decl().name()) == find(b.decl().name()))
     for _ in range(rounds):
         sel = _ground_selects(ground + inst)
+        apps = {}
+        for f in ground + inst:
+            for name, i, t in _ground_apps_one(f):
+                apps.setdefault(name, {})[i] = t
         new = []
         for q in quants:
             nv = q.num_vars()
+            dp = _def_pattern(q)
+            if dp is not None:
+                # defining equation of an opaque specification function: unfold it at every ground application
+                for t in list(apps.get(dp[0], {}).values()):
+                    vals = [None] * nv
+                    for a, ix in zip(t.children(), dp[1]):
+                        vals[ix] = a
+                    if None in vals:
+                        continue
+                    f = z3.substitute_vars(q.body(), *vals)
+                    if f.get_id() not in seen_inst:
+                        seen_inst.add(f.get_id())
+                        new.append(f)
+                continue
             body = q.body()
             reads = _quant_reads(q)
             # pairwise facts  forall i, j. ... A[i] ... A[j] ...  (monotonicity): all pairs of the ground indices of A (few)
@@ -308,7 +395,7 @@ def _instantiate(quants, ground, rounds, cap, seen_inst):
                             vk, c = (m.arg(0), m.arg(1)) if z3.is_var(m.arg(0)) else (m.arg(1), m.arg(0))
                             if z3.is_var(vk) and not z3.is_var(c):
                                 for a_, c_, b_ in _split_affine(gi):
-                                    if c_.eq(z3.simplify(c)) or c_.eq(c):
+                                    if same_const(c_, z3.simplify(c)):
                                         vals = [None, None]
                                         vals[z3.get_var_index(vk)] = a_
                                         vals[z3.get_var_index(lo)] = b_
@@ -519,6 +606,16 @@ def prepare(ob):
         ob.time_ms = 0.0
         ob.backend = "simplifier"
         return Rec(ob, None)
+    if not ob.kind.startswith("canary") and z3.is_false(z3.simplify(ob.goal)) and len(ob.hyps) >= 2 and not z3.is_quantifier(ob.hyps[-1]):
+        # an exceptional edge that must be unreachable, `pc => False`: the same statement with the last assumption (the raising
+        # condition) as the thing to refute, `pc[:-1] => not pc[-1]`, so that goal-directed hypothesis selection applies
+        import copy as _copy
+        ob2 = _copy.copy(ob)
+        ob2.hyps = list(ob.hyps[:-1])
+        ob2.goal = z3.Not(ob.hyps[-1])
+        rec = prepare(ob2)
+        rec.name, rec.kind, rec.where, rec.func, rec.clause = ob.name, ob.kind, ob.where, ob.func, ob.clause
+        return rec
     smt = to_smt2(ob)
     extra = []
     if "POW" in smt:
